@@ -32,7 +32,10 @@ THEOREMS = [P_ + n for n in (
     # round 3
     'layout_dtype_invariant', 'layouts_hold_matrix', 'leaf_guards', 'model_uses_leaves',
     'leaf_kernel_terms', 'kernels_by_leaves', 'dispatch_table', 'calc_one_weight',
-    'leaf_python_slices')]
+    'leaf_python_slices',
+    # round 4: list input
+    'list_loop_stateless', 'list_rowwise', 'list_row_eq_spec', 'list_noninterference',
+    'cached_coding_sound', 'coding_key_needs_folds')]
 RULE = ('one PRNG; a case = dataset (2-14 observations, 2-5 conditions, 2-6 channels, small '
         'dyadic values; dtype int64 / int32 / uint8 / float64 / float32; memory layout C / Fortran / '
         'strided slice of a padded array / negative strides; value classes: random, channel exactly '
@@ -41,7 +44,12 @@ RULE = ('one PRNG; a case = dataset (2-14 observations, 2-5 conditions, 2-6 chan
         'are opaque values of 13 kinds: small / negative / large ints, uint8, int32, python int lists, '
         'floats with fractional parts (float64, float32, float16), str arrays, bytes, lists of np.str_, '
         'bools; arbitrary order) x design (single / unbalanced counts / fold-balanced / random folds / '
-        'descriptor=None / list of datasets) x missing-channel mask (none / '
+        'descriptor=None / list of datasets with one design / list, tuple or iterator of 2-4 datasets '
+        'each derived from its predecessor by: same design, same condition vector with other folds '
+        '(re-assigned within conditions, keeping fold balance, or re-drawn with another fold count), '
+        'other missing-channel mask, permuted observations, other repetition counts, other number of '
+        'channels, other label dtype, return to the design before the previous one; own dtype / layout '
+        'per member) x missing-channel mask (none / '
         'whole channels / per observation / whole observation / disjoint supports) x method (6) x '
         'weighting (2) x precision (none / SPD, C or F ordered, shared or per dataset) x fold descriptor '
         '(none / given) x arguments given / left to the signature defaults (+ one condition '
@@ -71,6 +79,19 @@ BRANCHES += ['one:equal', 'one:number', 'one:missing', 'one:noise', 'defaults', 
              'list:prior', 'cv:index-fallback']
 BRANCHES += ['fold:collide-int', 'descriptor:none', 'input:list', 'noise:list', 'noise:shared-list',
              'noise:list-complete', 'noise:shared-list-complete']
+# round 4 (seeded C15-7): lists of datasets whose members have their own design.  All tags are
+# computed from the data of consecutive members, not taken from the generator's intention.
+LIST_TAGS = ['fold-changed',        # same condition vector, other observation pairs share a fold
+             'fold-changed-balanced',   # ... and both are fold-balanced (calc_rdm must be matched)
+             'same-design', 'mask-changed', 'cond-vector-changed', 'first-order-changed',
+             'nobs-changed', 'channels-changed', 'cond-dtype-changed', 'fold-dtype-changed',
+             'data-dtype-changed', 'layout-changed', 'revisit',
+             'len2', 'len3', 'len4', 'tuple', 'iter', 'no-folds', 'member-missing',
+             'noise-tuple', 'noise-per-dataset-complete']
+BRANCHES += ['list:' + t for t in LIST_TAGS]
+BRANCHES += ['list-fold-changed:' + m for m in
+             ('euclidean', 'correlation', 'mahalanobis', 'crossnobis', 'poisson', 'poisson_cv',
+              'number', 'equal')]
 ASSUMPTIONS = [
     'float64 evaluation of either side is within 1e-9 relative (+1e-10 x scale absolute) of the '
     'exact value on the generated small dyadic inputs',
@@ -190,6 +211,8 @@ def _gen_case(rng, force=None):
     give_cv = bool(folds_used) and (cv_method or rng.random() < 0.35)
     if cv_method and folds_used and rng.random() < 0.08:
         give_cv = False                      # falls back to 'index' inside the library
+    if force.get('give_cv') is not None and folds_used:
+        give_cv = force['give_cv']
     folds = [f for _, f in obs] if give_cv else None
     n_obs = len(obs)
     lo = 1 if kern == 'poisson' else -4
@@ -309,6 +332,205 @@ def _gen_case(rng, force=None):
 
 FINE = 2 ** 22
 
+# ---- round 4: lists of 2-4 datasets whose members are related to their predecessor in a stated way
+RELATIONS = ['same-design', 'fold-changed', 'fold-recount', 'mask-changed', 'perm-obs', 'nobs-changed',
+             'channels-changed', 'label-dtype']
+MEMBER_KEYS = ('vals', 'noise', 'labels', 'folds', 'cond_kind', 'fold_kind', 'dtype', 'order', 'scale',
+               'mask')
+NUMERIC_KINDS = ['int', 'pylist', 'int32', 'uint8', 'float', 'float32', 'float16']
+FLOAT_KINDS = ('float', 'float32', 'float16')
+
+
+def _partition(folds):
+    groups = {}
+    for i, f in enumerate(folds):
+        groups.setdefault(f, []).append(i)
+    return {frozenset(g) for g in groups.values()}
+
+
+def _refold(rng, labels, folds):
+    """the same fold values handed to other observations *within each condition* (the counts per
+    condition and fold are unchanged, so a fold-balanced design stays balanced) such that other
+    observation pairs share a fold; None if the design admits no such reassignment"""
+    for _ in range(40):
+        new = list(folds)
+        for a in first_seen(labels):
+            idx = [i for i, l in enumerate(labels) if l == a]
+            fs = [folds[i] for i in idx]
+            rng.shuffle(fs)
+            for i, f in zip(idx, fs):
+                new[i] = f
+        if _partition(new) != _partition(folds):
+            return new
+    return None
+
+
+def first_seen(labels):
+    return orc.first_appearance(labels)
+
+
+def _rekind(rng, values, kind):
+    """the same label values held in another container / dtype (numeric kinds for small
+    non-negative integers, str <-> list of np.str_); None if the kind has no equivalent"""
+    if kind in NUMERIC_KINDS and all(float(v) == int(v) and 0 <= v <= 100 for v in values):
+        new = rng.choice([k for k in NUMERIC_KINDS if k != kind])
+        conv = float if new in FLOAT_KINDS else int
+        return [conv(v) for v in values], new
+    if kind in ('str', 'npstr'):
+        return list(values), ('npstr' if kind == 'str' else 'str')
+    return None
+
+
+def _spd(rng, P):
+    B = [[rng.randint(-1, 1) for _ in range(P)] for _ in range(P)]
+    return [[sum(B[i][k] * B[j][k] for k in range(P)) + (2 if i == j else 0) for j in range(P)]
+            for i in range(P)]
+
+
+def _member(rng, case, prev, rel):
+    """the next dataset of a list, related to its predecessor `prev` by `rel`; returns the
+    override dict (MEMBER_KEYS) and the relation actually realised"""
+    kern = KERNEL[case['method']]
+    labels, folds = list(prev['labels']), (None if prev['folds'] is None else list(prev['folds']))
+    cond_kind, fold_kind = prev.get('cond_kind'), prev.get('fold_kind')
+    n, P = len(labels), len(prev['vals'][0])
+    pattern = [[v is None for v in row] for row in prev['vals']]
+    shared_noise = case['noise'] is not None and case.get('noise_mode') != 'list'
+    if rel in ('fold-changed', 'fold-recount') and folds is None:
+        rel = 'perm-obs'
+    if rel == 'channels-changed' and shared_noise:
+        rel = 'mask-changed'
+    if rel == 'fold-changed':
+        new = _refold(rng, labels, folds)
+        if new is None:
+            rel = 'fold-recount'
+        else:
+            folds = new
+    if rel == 'fold-recount':
+        # another number of folds, assigned at random (same condition vector)
+        old = first_seen(folds)
+        pool = _labels(rng, 3, fold_kind) if fold_kind != 'bool' else [False, True]
+        for _ in range(40):
+            k = rng.choice([x for x in (2, 3) if x <= len(pool)])
+            new = [rng.choice(pool[:k]) for _ in labels]
+            if len(set(new)) >= 2 and _partition(new) != _partition(folds):
+                folds = new
+                break
+        else:
+            folds = [old[(old.index(f) + (i % 2)) % len(old)] for i, f in enumerate(folds)]
+    elif rel == 'perm-obs':
+        perm = list(range(n))
+        for _ in range(10):
+            rng.shuffle(perm)
+            if [labels[i] for i in perm] != labels:
+                break
+        labels = [labels[i] for i in perm]
+        folds = None if folds is None else [folds[i] for i in perm]
+        pattern = [pattern[i] for i in perm]
+    elif rel == 'nobs-changed':
+        fl = None if folds is None else first_seen(folds)
+        for _ in range(20):
+            obs = []
+            for a in first_seen(labels):
+                for _r in range(rng.randint(1, 3)):
+                    obs.append((a, None if fl is None else rng.choice(fl)))
+            if len(obs) != n and len(obs) <= 14:
+                break
+        rng.shuffle(obs)
+        labels = [a for a, _ in obs]
+        folds = None if fl is None else [f for _, f in obs]
+        n = len(labels)
+        pattern = None
+    elif rel == 'channels-changed':
+        lo_p = 3 if kern == 'correlation' else 2
+        P = rng.choice([p for p in range(lo_p, 7) if p != P])
+        pattern = None
+    elif rel == 'label-dtype':
+        r = _rekind(rng, labels, cond_kind) if not case.get('nodesc') else None
+        done = False
+        if r is not None:
+            (labels, cond_kind), done = r, True
+        if folds is not None and (not done or rng.random() < 0.5):
+            r = _rekind(rng, folds, fold_kind)
+            if r is not None:
+                (folds, fold_kind), done = r, True
+        if not done:
+            rel = 'same-design'
+    # missing-channel pattern of the member
+    if rel == 'mask-changed' or pattern is None:
+        want_change = rel == 'mask-changed'
+        old = pattern
+        for _ in range(20):
+            kind = rng.choice(['perobs', 'whole', 'none'] if want_change else ['none', 'none', 'perobs'])
+            if not want_change and case['noise'] is not None and case['mask'] == 'none':
+                kind = 'none'        # complete data with a precision: outside the known mahalanobis finding
+            pattern = [[False] * P for _ in range(n)]
+            if kind == 'whole':
+                for c in rng.sample(range(P), rng.randint(1, max(1, P - (3 if kern == 'correlation' else 1)))):
+                    for row in pattern:
+                        row[c] = True
+            elif kind == 'perobs':
+                for row in pattern:
+                    if rng.random() < 0.5:
+                        for c in rng.sample(range(P), rng.randint(1, max(1, P - 3))):
+                            row[c] = True
+            if not want_change or pattern != old:
+                break
+    lo = 1 if kern == 'poisson' else -4
+    scale = 1 if prev['scale'] == FINE else prev['scale']
+    for _attempt in range(40):
+        vals = [[None if pattern[i][c] else rng.randint(lo, 8) for c in range(P)] for i in range(n)]
+        if kern != 'correlation' or _corr_ok(vals, P):
+            break
+    else:
+        vals = [[(i * 3 + c * c + (i * c) % 5) % 7 + 1 for c in range(P)] for i in range(n)]
+    noise = case['noise']
+    if noise is not None and not shared_noise:
+        noise = _spd(rng, P)
+    m = {'vals': vals, 'noise': noise, 'labels': labels, 'folds': folds, 'cond_kind': cond_kind,
+         'fold_kind': fold_kind, 'scale': scale, 'dtype': 'float',
+         'order': rng.choice(['C', 'F', 'strided', 'reversed']),
+         'mask': 'none' if not any(v is None for row in vals for v in row) else 'perobs'}
+    if rng.random() < 0.4:
+        dt = rng.choice(['int', 'int32', 'uint8', 'float32'])
+        if orc.dtype_ok(dict(case, scale=scale), dt, vals):
+            m['dtype'] = dt
+    m['rel'] = rel
+    return m
+
+
+def _gen_session(rng, force=None, rels=None, n_members=None):
+    """a list of 2-4 datasets in one call: the first is an ordinary case, every further one is
+    derived from its predecessor by one of RELATIONS"""
+    force = dict(force or {})
+    force.update(extra=0, nodesc=False)
+    if 'give_cv' not in force:
+        force['give_cv'] = True if rng.random() < 0.75 else None
+    if 'design' not in force and force.get('give_cv'):
+        force['design'] = rng.choice(['foldbal', 'foldbal', 'foldbal1', 'randfolds'])
+    case = _gen_case(rng, force)
+    case.pop('extra', None)
+    if rels is None:
+        k = n_members or rng.choice([2, 2, 3, 3, 4])
+        pool = RELATIONS + ['fold-changed', 'fold-changed', 'fold-recount', 'revisit']
+        rels = [rng.choice(pool) for _ in range(k - 1)]
+    case['noise_mode'] = force.get('noise_mode') or rng.choice(['shared', 'list'])
+    case['container'] = force.get('container') or rng.choice(['list', 'list', 'tuple', 'iter'])
+    case['extra'] = []
+    for rel in rels:
+        subs = orc.sub_cases(case)
+        if rel == 'revisit':
+            # back to the design before the previous one (A, B, A)
+            shared = case['noise'] is not None and case['noise_mode'] != 'list'
+            if len(subs) >= 2 and not (shared and len(subs[-2]['vals'][0]) != len(subs[-1]['vals'][0])):
+                m = _member(rng, case, subs[-2], 'same-design')
+                m['rel'] = 'revisit'
+                case['extra'].append(m)
+                continue
+            rel = 'fold-changed'
+        case['extra'].append(_member(rng, case, subs[-1], rel))
+    return case
+
 
 def _apply_vclass(rng, vals, labels, vclass, P, lo):
     """value classes that random small integers (almost) never produce"""
@@ -381,7 +603,7 @@ def _corr_ok(vals, P):
 
 
 def generate(rng, tier):
-    n = 420 if tier == 'quick' else 9000
+    n = 500 if tier == 'quick' else 10000
     if tier == 'thorough':
         # differential run of the shipped binary against a rebuild of the shipped C text
         if 'rebuilt-so' not in BRANCHES:
@@ -435,6 +657,47 @@ def generate(rng, tier):
             yield _gen_case(rng, {'method': method, 'extra': 2, 'nodesc': False, 'mask': 'none',
                                   'noise': True, 'noise_mode': mode, 'weighting': 'number'})
             k += 1
+    # round 4 (seeded C15-7): lists of 2-4 datasets that share / differ in condition vector, fold
+    # vector (same conditions, other folds), number of observations, channels, masks, label dtype
+    for method in METHODS:
+        for weighting in ('number', 'equal'):
+            yield _gen_session(rng, {'method': method, 'weighting': weighting, 'give_cv': True,
+                                     'mask': 'none', 'defaults': False,
+                                     'design': 'foldbal1' if method == 'poisson_cv' else 'foldbal'},
+                               rels=['fold-changed'] + [rng.choice(RELATIONS)
+                                                        for _ in range(rng.randint(0, 2))])
+            k += 1
+    for rel in RELATIONS:
+        for method in rng.sample(METHODS, 3):
+            yield _gen_session(rng, {'method': method, 'defaults': False,
+                                     'give_cv': True if rel.startswith('fold') else None},
+                               rels=[rng.choice(RELATIONS) for _ in range(rng.randint(0, 1))] + [rel])
+            k += 1
+    for cont in ('tuple', 'iter'):
+        yield _gen_session(rng, {'container': cont, 'defaults': False}, n_members=3)
+        k += 1
+    for method in ('crossnobis', 'poisson_cv', 'euclidean'):
+        yield _gen_session(rng, {'method': method, 'give_cv': True, 'defaults': False},
+                           rels=[rng.choice(['fold-changed', 'perm-obs', 'nobs-changed']), 'revisit'])
+        k += 1
+    for method, cont in (('mahalanobis', 'tuple'), ('crossnobis', 'tuple'), ('mahalanobis', 'iter'),
+                         ('crossnobis', 'list')):
+        # one precision per dataset, handed over as a tuple / list beside a tuple / iterator / list of
+        # datasets; complete data (outside the known mahalanobis finding)
+        yield _gen_session(rng, {'method': method, 'container': cont, 'noise': True, 'noise_mode': 'list',
+                                 'mask': 'none', 'weighting': 'number', 'defaults': False},
+                           rels=[rng.choice(['same-design', 'fold-changed', 'perm-obs', 'channels-changed']),
+                                 rng.choice(['same-design', 'nobs-changed'])])
+        k += 1
+    for n_mem in (2, 3, 4):
+        yield _gen_session(rng, {'defaults': False}, n_members=n_mem)
+        k += 1
+    for kind in ('int', 'uint8', 'float', 'pylist', 'str'):      # label dtype changes along the list
+        yield _gen_session(rng, {'cond_kind': kind, 'fold_kind': rng.choice(['int', 'float32', 'pylist']),
+                                 'give_cv': True, 'defaults': False,
+                                 'method': rng.choice(['crossnobis', 'poisson_cv', 'euclidean'])},
+                           rels=['label-dtype', rng.choice(['label-dtype', 'fold-changed'])])
+        k += 1
     for kind in LABEL_KINDS:
         yield _gen_case(rng, {'cond_kind': kind, 'method': rng.choice(METHODS)})
         for method in ('crossnobis', 'poisson_cv', 'euclidean'):
@@ -444,13 +707,15 @@ def generate(rng, tier):
             k += 1
         k += 1
     while k < n:
-        yield _gen_case(rng)
+        yield _gen_session(rng) if rng.random() < 0.12 else _gen_case(rng)
         k += 1
 
 
 def search(rng, tier):
+    """cases for the failing-input search: single datasets and (round 4) lists of datasets with
+    related designs, half and half"""
     while True:
-        yield _gen_case(rng)
+        yield _gen_session(rng) if rng.random() < 0.5 else _gen_case(rng)
 
 
 # ---------------------------------------------------------------- real code
@@ -571,7 +836,13 @@ def model_result(case, answers):
         k = 4
     res['multi'] = None
     if case.get('extra'):
-        res['multi'] = [res['rdm']] + [[_dec(case, x) for x in a['rdm']] for a in answers[k:]]
+        # every dataset of the list modelled alone (own labels, folds, mask); pair maps keyed by the
+        # labels of the first dataset, as the rows of the list result are
+        res['multi'] = [orc.as_map(res['labels'], res['rdm'])]
+        for sc, a in zip(orc.sub_cases(case)[1:], answers[k:]):
+            bk = {v: kk for kk, v in orc.label_codes(sc['labels']).items()}
+            uq = orc.to_first(res['labels'], [bk[u] for u in a['uniq']])
+            res['multi'].append(orc.as_map(uq, [_dec(case, x) for x in a['rdm']]))
     return res
 
 
@@ -611,9 +882,12 @@ def compare(case, impl, model):
         if d:
             return 'impl vs model ' + d
     if case.get('extra'):
-        d = first_diff(impl['multi'], model['multi'], 1e-9, atol, 'list input, row')
-        if d:
-            return 'impl vs model ' + d
+        if len(impl['multi']) != len(model['multi']):
+            return f"impl vs model list input: {len(impl['multi'])} rows != {len(model['multi'])}"
+        for kk, (ri, rm) in enumerate(zip(impl['multi'], model['multi'])):
+            d = orc.map_diff(ri, rm, 1e-9, atol)
+            if d:
+                return f'impl vs model list input, dataset {kk}: ' + d
     # the executed model against its own specification / balanced formulas (runtime echo of
     # the theorems `unb_eq_spec`, `unb_*_eq_balanced`)
     d = first_diff(model['rdm'], model['spec'], 1e-9, atol, 'model rdm vs specDist')
@@ -651,6 +925,57 @@ def compare(case, impl, model):
 
 # ---------------------------------------------------------------- features
 
+def list_tags(case):
+    """how consecutive datasets of a list input are related (computed from the data)"""
+    subs = orc.sub_cases(case)
+    if len(subs) < 2:
+        return []
+    tags = {'len%d' % min(len(subs), 4)}
+    cont = case.get('container', 'list')
+    if cont != 'list':
+        tags.add(cont)
+    if case['folds'] is None:
+        tags.add('no-folds')
+    if case['noise'] is not None and case.get('noise_mode') == 'list':
+        if cont == 'tuple':
+            tags.add('noise-tuple')
+        if not any(orc.has_missing(c) for c in subs):
+            tags.add('noise-per-dataset-complete')
+    pat = lambda c: [[v is None for v in row] for row in c['vals']]
+    design = lambda c: (list(c['labels']), None if c['folds'] is None else _partition(c['folds']))
+    for k in range(1, len(subs)):
+        a, b = subs[k - 1], subs[k]
+        same_cond = list(a['labels']) == list(b['labels'])
+        if orc.has_missing(b):
+            tags.add('member-missing')
+        if same_cond and a['folds'] is not None and _partition(a['folds']) != _partition(b['folds']):
+            tags.add('fold-changed')
+            if orc.balanced_kind(a)[0] == 'cv' and orc.balanced_kind(b)[0] == 'cv':
+                tags.add('fold-changed-balanced')
+        if same_cond and design(a) == design(b) and len(a['vals'][0]) == len(b['vals'][0]):
+            tags.add('same-design' if pat(a) == pat(b) else 'mask-changed')
+        if not same_cond:
+            tags.add('cond-vector-changed')
+        if orc.first_appearance(a['labels']) != orc.first_appearance(b['labels']):
+            tags.add('first-order-changed')
+        if len(a['labels']) != len(b['labels']):
+            tags.add('nobs-changed')
+        if len(a['vals'][0]) != len(b['vals'][0]):
+            tags.add('channels-changed')
+        if orc.kind_of(a, 'cond') != orc.kind_of(b, 'cond'):
+            tags.add('cond-dtype-changed')
+        if a['folds'] is not None and orc.kind_of(a, 'fold') != orc.kind_of(b, 'fold'):
+            tags.add('fold-dtype-changed')
+        if a['dtype'] != b['dtype']:
+            tags.add('data-dtype-changed')
+        if a['order'] != b['order']:
+            tags.add('layout-changed')
+        # a design met earlier in the list comes back after a different one
+        if any(design(subs[j]) == design(b) for j in range(k - 1)) and design(a) != design(b):
+            tags.add('revisit')
+    return sorted(tags)
+
+
 def features(case, impl):
     has_missing = any(v is None for row in case['vals'] for v in row)
     crossval = orc.crossval_of(case)
@@ -665,6 +990,10 @@ def features(case, impl):
         br.append('descriptor:none')
     if case.get('extra'):
         br.append('input:list')
+        lt = list_tags(case)
+        br += ['list:' + t for t in lt]
+        if 'fold-changed' in lt:
+            br += ['list-fold-changed:' + case['method'], 'list-fold-changed:' + case['weighting']]
         if case['noise'] is not None:
             br.append('noise:list' if case.get('noise_mode') == 'list' else 'noise:shared-list')
             if not has_missing:
@@ -716,6 +1045,8 @@ def features(case, impl):
             'n_cond': len(set(case['labels'])), 'n_channel': len(case['vals'][0]),
             'vclass': '+'.join(value_tags(case)) or 'none', 'defaults': bool(case.get('defaults')),
             'has_one': bool(case.get('one')), 'is_list': bool(case.get('extra')),
+            'list_len': 1 + len(case.get('extra') or []),
+            'list_relation': '+'.join(t for t in list_tags(case) if not t.startswith('len')) or 'none',
             'branches': br}
 
 
@@ -723,7 +1054,7 @@ def nontrivial_key(case, impl):
     if len(set(case['labels'])) < 2 or not impl or 'rdm' not in impl:
         return None
     return [case['method'], case['weighting'], case['design'], case['mask'], case['labels'],
-            case['folds'], case['vals'], case['noise']]
+            case['folds'], case['vals'], case['noise'], case.get('extra')]
 
 
 # ---------------------------------------------------------------- oracle / shrink
